@@ -25,7 +25,7 @@ RULE = ("case = one statement of a generated history (model-valid mutation state
 ASSUMPTIONS = ["the Python model (deep copy on every read) is the specification of copy-on-assignment semantics",
                "only model-valid statements are generated, so no error text is ever predicted",
                "container size <= 12, nesting depth <= 4, ints/short strings as leaves"]
-PLAN = {"quick": {"histories": 640, "calls_pairs": 12, "inject": 0, "shards": 16},
+PLAN = {"quick": {"histories": 2400, "calls_pairs": 20, "inject": 300, "shards": 16},
         "thorough": {"histories": 24000, "calls_pairs": 92, "inject": 3000, "shards": 64}}
 REG = dict(level="exploration", min_nontrivial=3000,
            technique="reference-model monitor over generated mutation histories: all variables dumped after every statement and compared with a deep-copy Python model; Rc sharing observed per statement; call sweep and fuel-hook fault injection check that unnamed variables never change",
